@@ -304,7 +304,7 @@ def enumerated(ctx, sr, ref):
         return p
 
     out = []
-    nsets = ctx.pick(300, 5000)
+    nsets = ctx.pick(300, 2500)
     for i in range(nsets):
         k = rng.random()
         if k < 0.4:
@@ -413,6 +413,8 @@ def other_hash_seeds(ctx, cases, obs, seeds):
             continue
         res = json.loads(p.stdout)
         for i, (a, b) in enumerate(zip(res, obs)):
+            if "no-result" in str(a[1]) or "no-result" in str(b[1]):
+                continue  # a timing effect, reported by the oracle
             if list(a) != list(b):
                 diffs.append((seed, i, a, b))
     return diffs
@@ -429,7 +431,7 @@ def run(ctx):
         "pattern of level_sequence_restrictions.csv x every test-case pattern literal found in test_cases/**/*.py (+ the docstring example) x picture / fragment lists, "
         "symbol_priority as in make_sequence; (3) hand-written and corpus cases. Non-trivial = the result differs from the required list (insertions were needed) or "
         "impossibility was reported. Oracle: exhaustive reference search without the greedy step over Brzozowski derivatives (bounded consecutive insertions)."
-        % (ctx.pick(300, 5000), ctx.pick(3, 4)))
+        % (ctx.pick(300, 2500), ctx.pick(3, 4)))
     tagged = load_corpus() + [("hand", c) for c in HAND] + real_combinations(ctx, sr) + enumerated(ctx, sr, ref)
     tagged = [(k, c) for k, c in tagged if hypothesis_ok(ref, c)]
     cases = [c for _k, c in tagged]
